@@ -77,6 +77,11 @@ def gen_case(r, i, tier):
            "prop_kind": "uniform" if r.random() < 0.3 else "gauss",
            "nan_outside": bool(r.random() < 0.4), "like_cut": float(r.normal(0, 1)) if r.random() < 0.3 else None}
     n = int(r.choice([1, 4, 9]))
+    if i % 37 == 11:
+        # ONE evaluation of a very large set of kernel states (a population of ten or twenty thousand particles), not a multiple of any
+        # power of two: the target of point k is still computed from the proposal density, prior and likelihood of point k
+        n = int(r.choice([8193, 9001, 20011]))
+        cfg["like_cut"] = None
     bounded = bool(pre and pre.get("bounded_to_unbounded"))
     if bounded:
         z = r.normal(0, 1.5, (n, dims))
@@ -89,6 +94,8 @@ def gen_case(r, i, tier):
         z = r.uniform(-1.6 * cfg["half"], 1.6 * cfg["half"], (n, dims))     # some pre-images fall outside the prior box
     cfg["z"] = z.tolist()
     cfg["beta"] = float(r.choice([1.0, 1.0, r.uniform(1e-3, 1), 10 ** r.uniform(-6, -1)]))
+    if n > 1000:
+        cfg["beta"] = float(r.uniform(0.05, 0.9))
     cfg["fit_seed"] = int(r.integers(1 << 30))
     cfg["memo"] = bool(i % 4 == 1)
     cfg["refit"] = bool(i % 3 == 2)
